@@ -917,12 +917,16 @@ func (st *c02State) crossEpoch(dev *Account, chainID string, epoch, height uint6
 		// the other epoch first, then the current one against the current pairing
 		first := ""
 		for _, p := range s.Providers {
-			if ok, _ := st.verify(shared, dev, p, chainID, other); ok {
+			ok, verr := st.verify(shared, dev, p, chainID, other)
+			if ok {
 				first = p.Acc.Name
 				if !in[p.Acc.Addr] {
 					r.Probe("c02_cross_epoch_pairings_differ")
 				}
 				break
+			}
+			if verr != nil {
+				break // no pairing can be computed for that epoch (no project / policy / providers then)
 			}
 		}
 		if first == "" {
@@ -1184,13 +1188,14 @@ func init() {
 	AddOp("c02complain", (*Sim).opC02Complain)
 	AddOp("c02epochs", (*Sim).opC02Epochs)
 	simrt.Register("C02", &simrt.PropSpec{Fn: runC02, NonTrivial: c02NonTrivial,
-		Rule:    "tape-generated histories on the base chain world plus a spec with a mandatory collection, two add-ons, an optional api interface and extensions (and sometimes a static-provider spec): providers (re)stake with per-geolocation endpoints supporting random subsets of interfaces/add-ons/extensions, freeze/unfreeze, unstake, move stake, delegations; plans are added/modified by governance proposals and subscription/admin policies set through the msg servers with geolocation profiles, max-providers, selected-provider modes (ALLOWED/MIXED/EXCLUSIVE/DISABLED) and chain requirements (collections + extensions, mixed or not); relays populate the pairing relay cache and carry unresponsiveness complaints that get a provider jailed. After every epoch start, in the block after an in-place plan modification and at tape-chosen mid-epoch points, for every developer key x dynamic spec the five clauses of the statement are evaluated (eligibility by an independent predicate). Non-trivial = >=10 accepted operations, >=5 non-empty pairings examined, eligible!=max seen and at least one of exclusive/mixed/requirement/unapplied-stake situations; distinct = (op,outcome,fault) sequence hash",
+		Rule:    "tape-generated histories on the base chain world plus a spec with a mandatory collection, two add-ons, an optional api interface and extensions (and sometimes a static-provider spec): providers (re)stake with per-geolocation endpoints supporting random subsets of interfaces/add-ons/extensions, freeze/unfreeze, unstake, move stake, delegations; plans are added/modified by governance proposals and subscription/admin policies set through the msg servers with geolocation profiles, max-providers, selected-provider modes (ALLOWED/MIXED/EXCLUSIVE/DISABLED) and chain requirements (collections + extensions, mixed or not); relays populate the pairing relay cache and carry unresponsiveness complaints that get a provider jailed. After every epoch start, in the block after an in-place plan modification and at tape-chosen mid-epoch points, for every developer key x dynamic spec the five clauses of the statement are evaluated (eligibility by an independent predicate); the verification clause is also evaluated with pairings of two epochs verified side by side on one block state (tape-chosen earlier epoch still in memory, either order: current-epoch answers must stay equal to the current pairing, earlier-epoch answers equal to those of a branch where only that epoch is verified). Non-trivial = >=10 accepted operations, >=5 non-empty pairings examined, eligible!=max seen and at least one of exclusive/mixed/requirement/unapplied-stake situations; distinct = (op,outcome,fault) sequence hash",
 		Real:    chainReal,
 		Stubbed: chainStub,
 		Assume: append(append([]string{}, chainAssume...),
 			"what is required of a provider is read from the chain's own strictest-policy computation (GetProjectStrictestPolicy); only whether a provider meets it is decided independently",
 			"a requirement is mandatory iff it is not flagged Mixed; an EXCLUSIVE effective selected-providers mode makes the selected list mandatory; geolocation is a score, not a requirement",
 			"frozen/jailed is observed as StakeAppliedBlock in the epoch snapshot (plus a ledger of acknowledged explicit freezes); jailing is reached only through accumulated unresponsiveness complaints (soft jail = StakeAppliedBlock in the future, repeated jail = frozen)",
-			"queries (GetPairingForClient, VerifyPairing) run on a discarded branch of the block state, as on a node"),
+			"queries (GetPairingForClient, VerifyPairing) run on a discarded branch of the block state, as on a node",
+			"for an epoch that is no longer the current one there is no 'current pairing' to compare with: the reference is what VerifyPairing answers on a branch of the same block state on which no other epoch is verified"),
 	})
 }
